@@ -135,6 +135,12 @@ def run(check):
                               any(b.kind == 'self-call' and b.detail == '_check_available_space' for b in cmx.accesses[c.func.attr])))
     for s in shr:
       if g.exit in g.reach(g.after(s), removed_nodes=chk | deleg, normal_only=True):
+        # reachable in the graph: is it feasible?  (`taken = (m, d)` ... `if taken is None: return` is not)
+        from ..paths import unguarded_exit
+        esc = unguarded_exit(cx, m, [s], chk | deleg)
+        if esc is None:
+          r_cr.ok('%s(): shrink followed by _check_available_space() on every feasible path' % name, m.loc(s.ast))
+          continue
         p = g.path(g.after(s), g.exit, removed_nodes=chk | deleg, normal_only=True)
         r_cr.violate('%s() shrinks without the space check' % name, m, s.ast, 'after the cache shrinks here, %s() can return '
                      'without calling _check_available_space(): receivers paused by cacheFull are never resumed'
